@@ -44,7 +44,7 @@ func init() {
 				n, nc, np = 3000000, 1500, 20000
 			}
 			return []runner.Phase{
-				{Name: "static", Variant: "plain", Cases: n, Run: c11static, Required: []string{"token_aware_with_key", "nonlocal_fallback", "rotation_checks", "down_hosts"}},
+				{Name: "static", Variant: "plain", Cases: n, Run: c11static, Required: []string{"token_aware_with_key", "nonlocal_fallback", "rotation_checks", "rotation_checks_farther_tiers", "down_hosts"}},
 				{Name: "concurrent", Variant: "race", Cases: nc, Run: c11concurrent, CaseTimeout: 120 * time.Second, Required: []string{"concurrent_picks"}},
 				{Name: "concurrent-build", Variant: "race", Cases: nc * 10, Run: c11build, Required: []string{"concurrent_builds"}},
 				{Name: "cowlist-linearizable", Variant: "race", Cases: np, Run: c11cow, Required: []string{"histories_checked"}},
@@ -461,34 +461,75 @@ func c11static(c *runner.Ctx, i int) {
 		}
 		last = t
 	}
-	// rotation of the starting host in the top tier
-	if prefixLen == 0 && panicked == "" {
-		var top []*c11host
-		allUp := true
+	// rotation of the starting host within every tier: with all hosts of a tier up, as many consecutive
+	// queries as the tier has hosts start that tier at that many distinct hosts
+	if prefixLen == 0 && panicked == "" && (!s.token || qkind >= 4) {
+		byTier := map[int][]*c11host{}
+		tierAllUp := map[int]bool{}
+		maxSize := 0
 		for _, h := range s.hosts {
-			if s.tierOf(h) == 0 {
-				top = append(top, h)
-				if !h.up {
-					allUp = false
+			t := s.tierOf(h)
+			byTier[t] = append(byTier[t], h)
+			if _, seen := tierAllUp[t]; !seen {
+				tierAllUp[t] = true
+			}
+			if !h.up {
+				tierAllUp[t] = false
+			}
+		}
+		check := false
+		for t, l := range byTier {
+			if tierAllUp[t] && len(l) >= 2 {
+				check = true
+				if len(l) > maxSize {
+					maxSize = len(l)
 				}
 			}
 		}
-		if len(top) >= 2 && allUp && (!s.token || qkind >= 4) {
+		if check {
 			c.Add("rotation_checks", 1)
-			starts := map[*gocql.HostInfo]bool{}
-			for k := 0; k < len(top); k++ {
+			starts := map[int]map[*gocql.HostInfo]bool{}
+			for k := 0; k < maxSize; k++ {
 				var nx gocql.NextHost
 				if qkind == 5 {
 					nx = pol.Pick(nil)
 				} else {
 					nx = pol.Pick(gocql.VerifNewQuery("ks", nil))
 				}
-				if sh := nx(); sh != nil {
-					starts[sh.Info()] = true
+				sq, _, _ := drain(nx, 4*len(s.hosts)+8)
+				firstSeen := map[int]bool{}
+				for _, h := range sq {
+					ch := byPtr[h]
+					if ch == nil {
+						continue
+					}
+					t := s.tierOf(ch)
+					if firstSeen[t] {
+						continue
+					}
+					firstSeen[t] = true
+					if k < len(byTier[t]) {
+						if starts[t] == nil {
+							starts[t] = map[*gocql.HostInfo]bool{}
+						}
+						starts[t][h] = true
+					}
 				}
 			}
-			if len(starts) != len(top) {
-				c.Violation("C11:"+pk+":no-rotation", fmt.Sprintf("%d consecutive queries started at only %d distinct hosts of a %d-host top tier", len(top), len(starts), len(top)), wit(""))
+			for t, l := range byTier {
+				if !tierAllUp[t] || len(l) < 2 {
+					continue
+				}
+				if t > 0 {
+					c.Add("rotation_checks_farther_tiers", 1)
+				}
+				if len(starts[t]) != len(l) {
+					key := "C11:" + pk + ":no-rotation"
+					if t > 0 {
+						key += fmt.Sprintf(":tier%d", t)
+					}
+					c.Violation(key, fmt.Sprintf("%d consecutive queries started tier %d at only %d distinct hosts of its %d hosts", len(l), t, len(starts[t]), len(l)), wit(""))
+				}
 			}
 		}
 	}
